@@ -7,32 +7,49 @@
 (* Symbolic cryptography: a stored ciphertext is Box(k, n, p): plaintext p *)
 (* under key k with nonce n; it opens only with k and only untampered.     *)
 (* Key classes: "nil", "len0", "len16", "len31", "len33", "len64", "zero"  *)
-(* (32 zero bytes), "good1", "good2".  Plaintext classes: "empty",         *)
+(* (32 zero bytes), "good1", "good2", and "onehot": a legitimate 32-byte   *)
+(* key with a single non-zero byte (the harness tries every position) -    *)
+(* almost all-zero, but not all-zero.  Plaintext classes: "empty",         *)
 (* "short", "long", "binary".                                              *)
 (*                                                                         *)
 (* Behaviour: Add(key, plaintext) [twice, for freshness] -> optional       *)
-(* Seal/Unseal of the carrying token -> optional Tamper(region) -> Get(key)*)
+(* Seal/Unseal of the carrying token -> optional Tamper(region) ->         *)
+(* Get(key) [-> Get(key2) on the SAME view object: what a read returns     *)
+(* must not depend on earlier reads].                                      *)
 (* Deviations (sensitivity only): "ConstantNonce", "MacNotChecked",        *)
-(* "ZeroKeyAccepted", "PlaintextFallback".                                 *)
+(* "ZeroKeyAccepted", "PlaintextFallback", "ViewCachesPlaintext" (a view   *)
+(* remembers what it decrypted, by entry name only), "SparseKeyRefused"    *)
+(* (the all-zero test does not look at every byte).                        *)
 (***************************************************************************)
 EXTENDS Integers, Sequences, FiniteSets, TLC, Json
 
 CONSTANTS Deviations
 
-KeyClasses == {"nil", "len0", "len16", "len31", "len33", "len64", "zero", "good1", "good2"}
-GoodKey(k) == k \in {"good1", "good2"} \/ (k = "zero" /\ "ZeroKeyAccepted" \in Deviations)
+KeyClasses == {"nil", "len0", "len16", "len31", "len33", "len64", "zero", "good1", "good2", "onehot"}
+Legit == {"good1", "good2", "onehot"}          \* the keys the property demands to work
+GoodKey(k) == (k \in Legit /\ ~(k = "onehot" /\ "SparseKeyRefused" \in Deviations)) \/ (k = "zero" /\ "ZeroKeyAccepted" \in Deviations)
 Plaintexts == {"empty", "short", "long", "binary"}
 Regions == {"none", "nonce", "mac", "body", "truncate", "extend"}
 
 VARIABLE m
 vars == <<m>>
 
-Init == \E carrier \in {"meta", "dlg", "inv"}, api \in {"string", "bytes"}, p \in Plaintexts, ak \in KeyClasses,
-           seal \in BOOLEAN, t \in Regions, gk \in KeyClasses :
-          /\ (carrier = "meta" => ~seal)
+\* one read of a stored box with key k; `cached`: the view already decrypted this entry once
+ReadWith(k, box, cached) ==
+  IF cached /\ "ViewCachesPlaintext" \in Deviations THEN "plaintext"
+  ELSE IF ~GoodKey(k) THEN "refused"
+  ELSE IF k = box.k /\ (box.intact \/ "MacNotChecked" \in Deviations) THEN "plaintext"
+  ELSE IF "PlaintextFallback" \in Deviations THEN "garbage" ELSE "error"
+
+Carriers == {"meta", "metaro", "dlg", "inv"}
+None2 == "none"         \* no second read
+Init == \E carrier \in Carriers, api \in {"string", "bytes"}, p \in Plaintexts, ak \in KeyClasses,
+           seal \in BOOLEAN, t \in Regions, gk \in KeyClasses, gk2 \in KeyClasses \cup {None2} :
+          /\ (carrier \in {"meta", "metaro"} => ~seal)
           /\ (t = "body" => p # "empty")
-          /\ m = [carrier |-> carrier, api |-> api, p |-> p, ak |-> ak, seal |-> seal, tamper |-> t, gk |-> gk,
-                  phase |-> "add", added |-> "none", box |-> "none", box2 |-> "none", got |-> "none"]
+          /\ (gk2 # None2 => (t = "none" /\ ak \in Legit /\ p \in {"short", "binary"}))    \* a second read of the same view
+          /\ m = [carrier |-> carrier, api |-> api, p |-> p, ak |-> ak, seal |-> seal, tamper |-> t, gk |-> gk, gk2 |-> gk2,
+                  phase |-> "add", added |-> "none", box |-> "none", box2 |-> "none", got |-> "none", got2 |-> "none", cached |-> FALSE]
 
 Next ==
   \/ /\ m.phase = "add"
@@ -45,20 +62,25 @@ Next ==
   \/ /\ m.phase = "tamper"
      /\ m' = [m EXCEPT !.phase = "get", !.box.intact = (m.tamper = "none")]
   \/ /\ m.phase = "get"
-     /\ m' = [m EXCEPT !.phase = "done",
-                       !.got = IF ~GoodKey(m.gk) THEN "refused"
-                               ELSE IF m.gk = m.box.k /\ (m.box.intact \/ "MacNotChecked" \in Deviations) THEN "plaintext"
-                               ELSE IF "PlaintextFallback" \in Deviations THEN "garbage" ELSE "error"]
+     /\ m' = [m EXCEPT !.phase = IF m.gk2 = None2 THEN "done" ELSE "get2",
+                       !.got = ReadWith(m.gk, m.box, FALSE),
+                       !.cached = ReadWith(m.gk, m.box, FALSE) = "plaintext"]
+  \/ /\ m.phase = "get2"
+     /\ m' = [m EXCEPT !.phase = "done", !.got2 = ReadWith(m.gk2, m.box, m.cached)]
 Spec == Init /\ [][Next]_vars
 
 Done == m.phase = "done"
 \* C19
-RoundTrip   == (Done /\ m.added = "ok" /\ m.tamper = "none" /\ m.gk = m.ak) => m.got = "plaintext"
-Authentic   == (Done /\ m.added = "ok" /\ GoodKey(m.gk) /\ (m.tamper # "none" \/ m.gk # m.ak)) => m.got = "error"
-KeyRefusal  == /\ (Done /\ m.ak \notin {"good1", "good2"}) => m.added = "refused"
-               /\ (Done /\ m.added = "ok" /\ m.gk \notin {"good1", "good2"}) => m.got = "refused"
+RoundTrip   == /\ (Done /\ m.ak \in Legit) => m.added = "ok"
+               /\ (Done /\ m.added = "ok" /\ m.tamper = "none" /\ m.gk = m.ak) => m.got = "plaintext"
+               /\ (Done /\ m.added = "ok" /\ m.gk2 = m.ak) => m.got2 = "plaintext"
+Authentic   == /\ (Done /\ m.added = "ok" /\ m.gk \in Legit /\ (m.tamper # "none" \/ m.gk # m.ak)) => m.got = "error"
+               /\ (Done /\ m.added = "ok" /\ m.gk2 \in Legit /\ m.gk2 # m.ak) => m.got2 = "error"
+KeyRefusal  == /\ (Done /\ m.ak \notin Legit) => m.added = "refused"
+               /\ (Done /\ m.added = "ok" /\ m.gk \notin Legit) => m.got = "refused"
+               /\ (Done /\ m.added = "ok" /\ m.gk2 \notin Legit \cup {None2}) => m.got2 = "refused"
 Fresh       == (Done /\ m.added = "ok") => m.box.n # m.box2.n
 
 Emit == Done => PrintT(ToJson([carrier |-> m.carrier, api |-> m.api, p |-> m.p, ak |-> m.ak, seal |-> m.seal, tamper |-> m.tamper,
-                               gk |-> m.gk, added |-> m.added, got |-> m.got]))
+                               gk |-> m.gk, gk2 |-> m.gk2, added |-> m.added, got |-> m.got, got2 |-> m.got2]))
 =============================================================================
